@@ -73,7 +73,7 @@ func TestC15(t *testing.T) {
 	n := mon.Pick(6, 2500)
 	for _, tg := range targets {
 		for _, aead := range []uint16{1, 2, 3} {
-			for _, b := range []string{"accept", "accept-hrr", "reject"} {
+			for _, b := range []string{"accept", "accept-hrr", "reject", "tls12-server"} {
 				for k := 0; k < n; k++ {
 					rg := Sub("C15plan", len(jobs))
 					jobs = append(jobs, job{tg, aead, uint8(rg.Intn(256)), []uint8{0, 16, 64, 255}[rg.Intn(4)], b, rg.Intn(3) == 0})
@@ -118,6 +118,12 @@ func TestC15(t *testing.T) {
 			}
 			return nil, nil
 		}
+		if j.behave == "tls12-server" {
+			// a server (or middlebox) that answers at TLS 1.2: no ECH there, and the secret
+			// name's traffic must not go to whoever answered
+			scfg.MaxVersion = tls.VersionTLS12
+			scfg.EncryptedClientHelloKeys = nil
+		}
 		var hrrGroup tls.CurveID
 		if j.behave == "accept-hrr" {
 			probe, err := j.t.Probe("example.test")
@@ -136,9 +142,25 @@ func TestC15(t *testing.T) {
 		// unknown version
 		list := peer.ECHConfigList(key)
 		pickedID := j.cfgID // the config the client has to pick: the first one it supports
-		if j.behave != "reject" {
+		if j.behave == "reject" && i%4 == 1 {
+			// (also towards a rejecting server: the outer name, and with it the name the
+			// rejection is authenticated under, is that of the config the client can use)
+			list = peer.ECHConfigListRaw(peer.ECHUnusableConfig(i/4, j.cfgID+7, "legacy.example.test"), key.Config)
+			r.Count("lists_with_an_unusable_first_config", 1)
+		}
+		if j.behave == "accept" || j.behave == "accept-hrr" {
 			second := peer.NewECHKey(j.cfgID+1, public, aeads, j.maxName)
-			switch i % 6 {
+			if i%8 >= 6 {
+				// a config the client has to skip (unknown KEM / mandatory extension / no
+				// usable suite), with another public name, in front of the usable one
+				list = peer.ECHConfigListRaw(peer.ECHUnusableConfig(i/8, j.cfgID+7, "legacy.example.test"), key.Config)
+				r.Count("lists_with_an_unusable_first_config", 1)
+			}
+			sel := i % 8
+			if sel >= 6 {
+				sel = 0
+			}
+			switch sel {
 			case 1:
 				list = peer.ECHConfigListRaw(key.Config, second.Config)
 			case 2:
@@ -151,7 +173,7 @@ func TestC15(t *testing.T) {
 			case 5:
 				list = peer.ECHConfigListRaw(key.Config, second.Config, key.Config)
 			}
-			if i%6 != 0 {
+			if i%8 < 6 && i%8 != 0 {
 				scfg.EncryptedClientHelloKeys = peer.ECHServerKeys(true, key, second)
 				r.Count("multi_entry_config_lists", 1)
 			}
@@ -186,8 +208,35 @@ func TestC15(t *testing.T) {
 			tgt.Edit = func(u *tls.UConn) error { u.SetSNI(secret); return nil }
 			r.Count("connections_with_setsni_after_build", 1)
 		}
+		returning := false
+		if j.behave == "reject" && i%3 == 2 && tgt.Edit == nil {
+			// a returning client: an earlier connection to an accepting server of the same pool
+			// (same ticket keys) left a session in the cache; the rejection must still come out
+			// as ECHRejectionError with the retry configs
+			var tk [32]byte
+			copy(tk[:], "verif C15 pool ticket key 012345")
+			scfg.SetSessionTicketKeys([][32]byte{tk})
+			warm := scfg.Clone()
+			warm.EncryptedClientHelloKeys = peer.ECHServerKeys(true, key)
+			warm.SetSessionTicketKeys([][32]byte{tk})
+			cache := tls.NewLRUClientSessionCache(4)
+			prevExtra := extra
+			extra = func(c *tls.Config) {
+				prevExtra(c)
+				c.ClientSessionCache = cache
+				c.PreferSkipResumptionOnNilExtension = true
+			}
+			if w := RunCase(tgt, GridCase{Server: warm}, secret, extra, peer.Opts{}); w.OK() && w.CState.ECHAccepted {
+				returning = true
+				r.Count("rejections_met_by_returning_clients", 1)
+			}
+		}
 		h := RunCase(tgt, GridCase{Server: scfg}, secret, extra, peer.Opts{})
 		sig := map[string]string{"target": j.t.Name, "behaviour": j.behave, "aead": fmt.Sprint(j.aead)}
+		if returning {
+			sig["behaviour"] = "reject+returning"
+			delete(sig, "aead") // one signature per target for this class (F68)
+		}
 		rep := map[string]any{"case": i, "target": j.t.Name, "aead": j.aead, "config_id": j.cfgID, "max_name_len": j.maxName, "behaviour": j.behave, "secret": secret, "err": h.ErrString()}
 		if h.ClientPanic != "" || h.ServerPanic != "" {
 			sig["kind"] = "panic"
@@ -218,7 +267,7 @@ func TestC15(t *testing.T) {
 			}
 			if ch.SNI == nil || *ch.SNI != public {
 				sig["kind"] = "outer_sni_not_public_name"
-				r.Violation(sig, fmt.Sprintf("%s CH%d: outer SNI is %v, the config's public name is %q", j.t.Name, hi+1, ch.SNI, public), rep)
+				r.Violation(sig, fmt.Sprintf("%s CH%d: outer SNI is %q, the config's public name is %q", j.t.Name, hi+1, derefStr(ch.SNI), public), rep)
 			}
 			if ch.ECH == nil || ch.ECH.Inner {
 				sig["kind"] = "no_outer_ech_extension"
@@ -284,6 +333,13 @@ func TestC15(t *testing.T) {
 			accepted[j.t.Name+"/"+j.behave]++
 			mu.Unlock()
 			r.Count("ech_accepted", 1)
+		case "tls12-server":
+			if h.ClientErr == nil {
+				sig["kind"] = "ech_connection_completed_at_tls12"
+				r.Violation(sig, fmt.Sprintf("%s: with an ECH config list the handshake completed at %#04x with a server that never saw the inner hello (ECHAccepted=%v): the application's data for the secret name would go to the public-name server", j.t.Name, h.CState.Version, h.CState.ECHAccepted), rep)
+				break
+			}
+			r.Count("tls12_answers_refused", 1)
 		case "reject":
 			var rej *tls.ECHRejectionError
 			if !errors.As(h.ClientErr, &rej) {
@@ -308,4 +364,13 @@ func TestC15(t *testing.T) {
 	r.Floor("ech_accepted", 30)
 	r.Floor("ech_rejected", 15)
 	r.Floor("accepted_after_hrr", 5)
+	r.Floor("tls12_answers_refused", 10)
+	r.Floor("lists_with_an_unusable_first_config", 10)
+}
+
+func derefStr(p *string) string {
+	if p == nil {
+		return "<none>"
+	}
+	return *p
 }
